@@ -17,15 +17,17 @@ type Outcome struct {
 	Key   [32]byte
 	Class string // outcome class of the last letter (accepted / error class), for statistics
 	Viols []Viol
-	Prune bool // do not explore beyond this state
+	Prune bool   // do not explore beyond this state
+	Aux   string // free-form observation handed to Scenario.OnResult
 }
 
 type Scenario struct {
 	Name      string
-	Letters   []string                    // printable alphabet, simplest first
-	Run       func(hist []uint16) Outcome // replay hist from scratch; judge the last letter
-	MaxDepth  int                         // deviation bound
-	MaxStates int                         // safety cap on the number of states (0 = none)
+	Letters   []string                         // printable alphabet, simplest first
+	Run       func(hist []uint16) Outcome      // replay hist from scratch; judge the last letter
+	MaxDepth  int                              // deviation bound
+	MaxStates int                              // safety cap on the number of states (0 = none)
+	OnResult  func(hist []uint16, out Outcome) // optional, called sequentially for every executed transition
 }
 
 type Stats struct {
@@ -89,26 +91,33 @@ func BFS(r Reporter, sc Scenario) *Stats {
 		var wg sync.WaitGroup
 		nw := runtime.NumCPU()
 		stopped := false
+		const chunk = 32
 		for w := 0; w < nw; w++ {
 			wg.Add(1)
 			go func() {
 				defer wg.Done()
 				for {
 					mu.Lock()
-					i := int(next)
-					if i >= total || stopped {
+					lo := int(next)
+					if lo >= total || stopped {
 						mu.Unlock()
 						return
 					}
-					if i%512 == 0 && r.OutOfTime() {
+					if r.OutOfTime() {
 						stopped = true
 						mu.Unlock()
 						return
 					}
-					next++
+					hi := lo + chunk
+					if hi > total {
+						hi = total
+					}
+					next = int64(hi)
 					mu.Unlock()
-					h := append(append(make([]uint16, 0, depth), frontier[i/nl]...), uint16(i%nl))
-					results[i] = res{h, sc.Run(h)}
+					for i := lo; i < hi; i++ {
+						h := append(append(make([]uint16, 0, depth), frontier[i/nl]...), uint16(i%nl))
+						results[i] = res{h, sc.Run(h)}
+					}
 				}
 			}()
 		}
@@ -132,6 +141,9 @@ func BFS(r Reporter, sc Scenario) *Stats {
 			o := results[i].out
 			st.Transitions++
 			st.Classes[o.Class]++
+			if sc.OnResult != nil {
+				sc.OnResult(results[i].hist, o)
+			}
 			prune := o.Prune
 			for _, v := range o.Viols {
 				r.Report(v.Sig, v.Msg, HistCase{sc.Name, names(results[i].hist), results[i].hist})
